@@ -52,7 +52,7 @@ _SIMDIR = os.path.dirname(os.path.realpath(__file__)) + os.sep
 def exception_origin(exc):
     """'library' if any frame of the traceback is inside /repo/histogrammar, 'gate' for an
     injected fault, else 'harness'."""
-    if isinstance(exc, gate.InjectedFault):
+    if isinstance(exc, (gate.InjectedFault, gate.InjectedAbort)):
         return "gate"
     if isinstance(exc, (TypeError, ValueError)) and ("is not JSON serializable" in str(exc) or "Out of range float values" in str(exc)):
         # json.dumps of a document the library produced: the document is at fault, not the harness
